@@ -31,13 +31,16 @@ def jobs(tier):
     for x, y in [("BBS", "BB"), ("BSS", "BS"), ("BIS", "BI")] if tier == "quick" else [("BBS", "BB"), ("BSS", "BS"), ("BIS", "BI"), ("BBSS", "BB"), ("BMS", "BM")]:
         for m in ("fifo", "lifo", "hifo", "lofo"):
             js.append({"form": "b", "x": x, "y": y, "method": m, "report": m in ("hifo",) and x == "BBS"})
+    # the open-positions report of {X} and of {Y, X}: X's rows (values and number formats) must not depend on Y
+    for x, y in [("BS", "B"), ("BB", "B")] if tier == "quick" else [("BS", "B"), ("BB", "B"), ("BBS", "BB"), ("BIS", "BS")]:
+        js.append({"form": "b", "x": x, "y": y, "method": "fifo", "report": "open"})
     return js
 
 
 def describe(spec):
     if spec["form"] == "a":
         return "C17a %s perm=%s %s" % (spec["code"], "".join(map(str, spec["perm"])), spec["method"])
-    return "C17b X=%s after Y=%s %s%s" % (spec["x"], spec["y"], spec["method"], " +report" if spec["report"] else "")
+    return "C17b X=%s after Y=%s %s%s" % (spec["x"], spec["y"], spec["method"], " +open-positions report" if spec["report"] == "open" else " +report" if spec["report"] else "")
 
 
 def weight(spec):
@@ -45,7 +48,7 @@ def weight(spec):
 
 
 def bounds(tier):
-    return {"C17a": "histories of 3%s transactions, row orders: %s; instants pairwise distinct" % ("" if tier == "quick" else "-4", "3 permutations + reversal" if tier == "quick" else "all permutations of 3, selected of 4"), "C17b": "asset X of 3 transactions computed alone vs after an asset Y of 2 whose lots sit on the same sheet rows, 4 methods; for one job also the cells of X's sheets in the full report", "amounts": "k*1e-11 in [1e-11, 1e9]", "prices": "k*1e-4 in [1e-4, 1e6]", "outside": ["PYTHONHASHSEED, repeated processes and files already in the output directory (no symbolic input: not decided here)", "equal timestamps under reordering (the property excludes them)"]}
+    return {"C17a": "histories of 3%s transactions, row orders: %s; instants pairwise distinct" % ("" if tier == "quick" else "-4", "3 permutations + reversal" if tier == "quick" else "all permutations of 3, selected of 4"), "C17b": "asset X of 3 transactions computed alone vs after an asset Y of 2 whose lots sit on the same sheet rows, 4 methods; for one job also the cells (values, formulas and the visual/data style names passed to _fill_cell) of X's sheets in the full report; for X of 2%s transactions and Y of 1%s also X's rows of the open-positions report (asset-local columns and their styles)" % (("", "") if tier == "quick" else ("-3", "-2")), "amounts": "k*1e-11 in [1e-11, 1e9]", "prices": "k*1e-4 in [1e-4, 1e6]", "outside": ["PYTHONHASHSEED, repeated processes and files already in the output directory (no symbolic input: not decided here)", "equal timestamps under reordering (the property excludes them)"]}
 
 
 def assumptions():
@@ -154,6 +157,40 @@ def _same_cell(S, a, b):
     return S.eq(S.ex(a), S.ex(b))
 
 
+def _open_positions(S, cfg, spec, cd_alone, cd_y, cd_after):
+    """X's rows on the 'Asset' and 'Asset - Exchange' sheets: the asset-local columns (names, balance, per-unit cost, cost
+    basis) and the styles of those cells and of the per-unit input-price cell; the weight column and the row-numbered
+    formulas legitimately depend on the other assets listed"""
+    import rp2.plugin.report.open_positions as m  # pylint: disable=import-outside-toplevel
+
+    out = []
+    for cds in ({"B2": cd_alone}, {"B1": cd_y, "B2": cd_after}):
+        for _k, v in list(vars(m.Generator).items()):
+            if isinstance(v, dict):
+                v.clear()
+        rec, err = reportlib.generate(S, "open_positions", cfg.country, cds, {1970: spec["method"]}, cfg.from_date, cfg.to_date, lang="en")
+        if err is not None:
+            if not out:
+                return  # X alone cannot be reported (e.g. nothing left): C15 / C16 territory
+            S.fail("C17", "generator-exception", "open positions of {B1, B2}: %s: %s" % (type(err).__name__, str(err)[:200]))
+        got = {}
+        for sheet, nkey, local, styled in (("Asset", 2, (2, 3, 4), (0, 1, 2, 3, 4, 6)), ("Asset - Exchange", 3, (3, 4, 5), (0, 1, 2, 3, 4, 5, 7))):
+            rows = rec.rows(sheet)
+            sty = rec.styles.get(sheet, {})
+            for r in sorted(rows):
+                c = rows[r]
+                if r >= 3 and type(c.get(0)) is str and c.get(0) == "B2":  # pylint: disable=unidiomatic-typecheck
+                    got[(sheet,) + tuple(c.get(i) for i in range(1, nkey))] = ([S.ex(c.get(i)) for i in local], [sty.get((r, i)) for i in styled])
+        out.append(got)
+    a, b = out
+    S.expect(sorted(a) == sorted(b), "C17", "open-positions-rows", "rows of B2 differ when B1 is reported as well: %s vs %s" % (sorted(a), sorted(b)))
+    for k in a:
+        for u, v in zip(a[k][0], b[k][0]):
+            S.expect(S.eq(u, v), "C17", "open-positions-value", "row %s of B2 differs when B1 is reported as well" % (k,))
+        S.expect(a[k][1] == b[k][1], "C17", "open-positions-style", "row %s of B2: cell styles %s vs %s when B1 is reported as well" % (k, a[k][1], b[k][1]))
+    S.note("open_rows", len(a))
+
+
 def run_b(S, spec):
     from rp2.accounting_engine import AccountingEngine  # pylint: disable=import-outside-toplevel
     from rp2.rp2_error import RP2ValueError  # pylint: disable=import-outside-toplevel
@@ -186,7 +223,9 @@ def run_b(S, spec):
     r2s = {10 + i: i for i in range(len(sx))}
     s_alone, s_after = snapshot(S, cd_alone, r2s), snapshot(S, cd_after, r2s)
     compare(S, "asset", s_alone, s_after)
-    if spec["report"]:
+    if spec["report"] == "open":
+        _open_positions(S, cfg, spec, cd_alone, cd_y, cd_after)
+    elif spec["report"]:
         recs = []
         for cds in ({"B2": cd_alone}, {"B1": cd_y, "B2": cd_after}):
             import rp2.plugin.report.rp2_full_report as m  # pylint: disable=import-outside-toplevel
@@ -203,6 +242,7 @@ def run_b(S, spec):
             S.expect(sorted(a) == sorted(b), "C17", "report-cells", "sheet %r has different cells when asset B1 is processed as well" % sheet)
             for pos in a:
                 S.expect(_same_cell(S, a[pos], b[pos]), "C17", "report-cell-value", "sheet %r cell %s differs when asset B1 is processed as well" % (sheet, pos))
+            S.expect(recs[0].styles.get(sheet) == recs[1].styles.get(sheet), "C17", "report-cell-style", "sheet %r: cell styles differ when asset B1 is processed as well" % sheet)
     S.observe("pairing", [g["id"] for g in s_alone["gl"]])
     S.note("fractions", len(s_alone["gl"]))
     return "ok"
